@@ -28,3 +28,5 @@ open GffProofs.C12
 #print axioms GffProofs.Gen.gen_bin_sound_overlap
 #print axioms GffProofs.Gen.gen_bin_sound_within
 #print axioms GffProofs.Gen.gen_out_of_range
+#print axioms GffProofs.Gen.gen_calcBin
+#print axioms GffProofs.Gen.gen_row_bin
